@@ -352,9 +352,10 @@ def run(tier):
     authenticated_bytes(chk)
     mac_restart_sets_fill(chk)
     # CCM and EAX run on the CTR+CBC-MAC primitives: their counter carry chains decide the ciphertext (shared with C12)
-    from .c12 import counter_carry_chains, empty_chunk_is_identity
+    from .c12 import counter_carry_chains, empty_chunk_is_identity, x86ni_counter_lanes
     counter_carry_chains(chk)
     empty_chunk_is_identity(chk)
+    x86ni_counter_lanes(chk)
     chk.floor('obligations', len(chk.obls), 18)
     from .. import lints
     lints.length_is_boolean(chk, ['src/aead/'])
